@@ -271,5 +271,9 @@ def run(ctx):
         for r, m in zip(runs, model):
             d = rc.compare(r, m)
             if d is None: res.traces_validated += 1
+            elif any(r.orc.regressed.values()):
+                # the model keeps positions at record boundaries (aligned_after_cut / aligned_after_reopen); a saved or told position (head file, seek(tell())) whose
+                # file NAME was used again for another file (known finding reader-name-regressed) breaks exactly that: reported under the finding, with the history as its input
+                res.violations.append(Violation('model-diverges-after-name-reuse:name-regressed', f"step {d.get('step')}: {str(d.get('impl'))[:160]} vs model {str(d.get('model'))[:160]}", r.case))
             else: res.disagreements.append({'point': 'c13.run', 'case': r.case, 'impl': d.get('impl'), 'model': d.get('model'), 'at': {k: d.get(k) for k in ('step', 'op')}})
     res.extra['input_distribution'] = dist
